@@ -63,6 +63,7 @@ type Workload struct {
 	Replicas  *int              `json:"replicas,omitempty"`
 	OwnerKind string            `json:"ownerKind,omitempty"` // for KOwnedPods (default ReplicaSet)
 	NPods     int               `json:"npods,omitempty"`     // for KOwnedPods (default 2)
+	OmitNs    bool              `json:"omitNs,omitempty"`    // manifest carries no metadata.namespace (only with Ns == "default")
 	HostIP    string            `json:"hostIP,omitempty"`
 	PodIP     string            `json:"podIP,omitempty"`
 }
@@ -127,6 +128,7 @@ type NetPol struct {
 	// PolicyTypes nil = defaulted
 	PolicyTypes []string `json:"policyTypes,omitempty"`
 	HasTypes    bool     `json:"hasTypes,omitempty"`
+	OmitNs      bool     `json:"omitNs,omitempty"` // manifest carries no metadata.namespace (only with Ns == "default")
 }
 
 // Governs says whether the policy's (defaulted) policyTypes include the direction.
